@@ -5,8 +5,8 @@ package main
 
 import (
 	"fmt"
-	"os"
 	"go/types"
+	"os"
 	"path/filepath"
 	"strconv"
 	"strings"
@@ -118,6 +118,22 @@ func (P *Program) findIntrinsic(fn *ssa.Function) intrinsicFn {
 					return orig(fr, f, args)
 				}
 				return fr.in.callFunction(fr, f, args, nil)
+			}
+			// a stub may declare a parameter as an interface where the replaced function has a
+			// concrete type (so that it survives signature changes): box the argument
+			if len(stub.Params) == len(args) && len(f.Params) == len(args) {
+				var boxed []value
+				for i, sp := range stub.Params {
+					if _, already := args[i].(iface); !already && types.IsInterface(sp.Type()) && !types.IsInterface(f.Params[i].Type()) {
+						if boxed == nil {
+							boxed = append([]value(nil), args...)
+						}
+						boxed[i] = iface{t: f.Params[i].Type(), v: args[i]}
+					}
+				}
+				if boxed != nil {
+					args = boxed
+				}
 			}
 			return fr.in.callFunction(fr, stub, args, nil)
 		}
